@@ -88,7 +88,7 @@ void h_CPS(void) { PointT p1, p2, p3; CrossProductSign(p1, p2, p3); VF_CANARY();
 #endif
 void h_eq(void) { UInt128Struct *a, *b; UInt128Struct_eq(a, b); VF_CANARY(); }
 
-//@run name=Multiply entry=h_Multiply enforce=Multiply defs=UNIT_MULTIPLY flags=SAFETY timeout=120
+//@run name=Multiply entry=h_Multiply enforce=Multiply defs=UNIT_MULTIPLY flags=SAFETY-unsigned timeout=120
 //@run name=UInt128Struct_eq entry=h_eq enforce=UInt128Struct_eq flags=SAFETY timeout=60
 //@run name=ProductsAreEqual entry=h_PAE enforce=ProductsAreEqual replace=Multiply,TriSign flags=SAFETY timeout=200
 //@run name=CrossProductSign entry=h_CPS enforce=CrossProductSign replace=Multiply,TriSign flags=SAFETY timeout=200
